@@ -67,6 +67,9 @@ def ext_slope (a : PyxSpec.c_slope.Args) : Ext
 def ext_inside (a : PyxSpec.c_inside.Args) : Ext
   | .points => a.points | .polygon => a.polygon | .xlim => a.polygon_xlim | .ylim => a.polygon_ylim
   | .inside => a.inside | _ => 0
+def ext_delineate_area (a : PyxSpec.c_delineate_area.Args) : Ext
+  | .flowdircode => a.flowdircode | .flowdir => a.flowdir | .idxinlets => a.idxinlets
+  | .idxcellsArea => a.idxcells_area | .buffer1 => a.buffer1 | .buffer2 => a.buffer2 | _ => 0
 def ext_delineate_boundary (a : PyxSpec.c_delineate_boundary.Args) : Ext
   | .idxcellsArea => a.idxcells_area | .buffer => a.buffer | .mask => a.catchment_area_mask
   | .idxboundary => a.idxcells_boundary | _ => 0
